@@ -43,7 +43,7 @@ CHECKS = {
  'C04': dict(
    text="Theorems for every hash function, block tree and parent-before-child arrival order: head = earliest-arrived block of "
         "greatest height; tips = stored blocks without stored children; by-height index at each block = its ancestors and itself; "
-        "forks() returns the last common ancestor with the active chain.",
+        "forks() returns the last common ancestor with the active chain. Node level (known finding J): the model's found-block handler never loses a served block and agrees with the shipped snapshot-based handler when nothing was adopted in between; otherwise the shipped one drops adopted blocks (C04_stale_snapshot_drops_adopted_block_refuted).",
    note="Tie: real add_block_no_validation / forks() vs extracted model and vs the statement recomputed from the arrival list, "
         "exhaustively for ALL parent-choice sequences up to 6 (thorough 7) arrivals, random beyond.",
    technique="Coq proof (invariant over admissible arrivals, std++ gmap) + exhaustive small-scope correspondence",
